@@ -895,12 +895,12 @@ func TestC17(t *testing.T) {
 		ID:     "C17",
 		Level:  "exploration",
 		Bubble: true,
-		Rule: "every case is one testing/synctest bubble with a fresh Node (not run) and a standalone centrifuge.NewMemoryBroker with a recording BrokerEventHandler. " +
-			"4 of 5 cases are sequential: 12-45 random operations over 1-3 channels - Publish (HistorySize 1-6, HistoryTTL 1-30 s, HistoryMetaTTL option or Config default 4 s..30 d, 1 in 10 without history), " +
-			"History (since nil / 0 / top / top+1 / beyond / around the oldest retained offset, correct / empty / foreign epoch; limit -1,0,1,2,3,len+1; reverse), RemoveHistory, and virtual-clock jumps to 1 s (or 1-2.5 s) before and after a pending TTL / meta-TTL deadline followed by a full read, plus random sleeps of 1-4000 ms - " +
+		Rule: "every case is one testing/synctest bubble with a fresh Node (not run; Config.HistoryMetaTTL 4 s..60 s or the 30 d default) and a standalone centrifuge.NewMemoryBroker with a recording BrokerEventHandler, hosting 8 scenarios on distinct channels. " +
+			"3 of 4 scenarios are sequential: 12-45 random operations over 1-3 channels - Publish (HistorySize 1-6, HistoryTTL 1-30 s, HistoryMetaTTL option 2-40 s or the Config default, 1 in 10 without history), " +
+			"History (since nil / 0 / top / top+1 / beyond / around the oldest retained offset, correct / empty / foreign epoch; limit -1,0,1,2,3,len+1; reverse; MetaTTL option), RemoveHistory, and virtual-clock jumps to 1 s (or 1-2.5 s) before and after a pending TTL / meta-TTL deadline followed by a full read, plus random sleeps of 1-4000 ms - " +
 			"each result compared at once with the reference bounded-stream model (offset, epoch generation, returned publications, handler call); nothing is asserted inside the open +-1 s window around a deadline (the harness sleeps past it). " +
-			"1 of 5 cases are concurrent: 4-8 goroutines x 4-8 operations on 1-2 channels (sizes 1-5, TTL 1 h, no clock jump), call/return stamped from one atomic counter, final full reads, history checked with porcupine (partition per channel, real 20 s timeout, Unknown => inconclusive). " +
-			"Non-trivial = every completed case; signature = which of {TTL expiry crossed, metadata expiry => new epoch, size trim, remove, read within 2 s before a deadline} occurred and the channel count, or (goroutines, channels, overlap bucket).",
+			"1 of 4 scenarios are concurrent: 4-8 goroutines x 4-8 operations on 1-2 channels (sizes 1-5, TTL 1 h, no clock jump, since only from offsets the goroutine has already seen on that channel), call/return stamped from one atomic counter, final full reads, history checked with porcupine.CheckOperationsVerbose (partition per channel, real 20 s timeout in a goroutine outside the bubble, Unknown => inconclusive). " +
+			"Non-trivial = every completed scenario; signature = which of {TTL expiry crossed, metadata expiry => new epoch, size trim, remove, read within 2 s before a deadline} occurred and the channel count, or (goroutines, channels, overlap bucket).",
 		Assumptions: []string{
 			"the reference model (harness/streammodel, ~60 lines) is a correct reading of the statement: offsets 1,2,3.. per stored publication; retained part = last `size` entries of the latest publish; forward since = offsets > since, reverse since = offsets < since; limit -1 all / 0 none; clear on remove or TTL keeps top and epoch; metadata discard = new epoch generation and top 0",
 			"TTLs have one-second resolution (documented in PublishOptions): data / metadata are asserted present up to deadline-1s and absent from deadline+1s, deadline = last stored publish + HistoryTTL resp. last stored publish or History call + meta TTL (History refreshing the metadata expiry is how HistoryOptions.MetaTTL is documented); nothing is asserted inside the 2 s window",
@@ -909,7 +909,7 @@ func TestC17(t *testing.T) {
 			"a fresh metadata generation must get an epoch different from every earlier one on that channel (8 random letters: a collision is negligible)",
 			"testing/synctest virtual time replaces the injectable clock the property's hook_needed field asks for; the broker's three sweep goroutines end on MemoryBroker.Close",
 		},
-		Cases:           map[string]int{"quick": 1600, "thorough": 24000},
+		Cases:           map[string]int{"quick": 1200, "thorough": 18000},
 		RequireCounters: []string{"ttl_expiry_crossed", "meta_expired_new_epoch", "read_within_2s_before_ttl_deadline", "trimmed_by_size", "removed_stream_keeps_position", "since_reads", "reverse_reads", "limit_cut_reads", "publish_without_history", "porcupine_histories", "overlapping_operation_pairs"},
 		Setup:           startLinWorker,
 		Run: func(c *kit.Case) {
